@@ -115,3 +115,18 @@ Example witness_v6zero_fixed :
   let w := [(0, 5); (0, 9)] in
   (build go_insertion_sort w, search (build go_insertion_sort w) 3, spec [] w 3) = ([(0, 9)], true, true).
 Proof. reflexivity. Qed.
+
+(* ---- IPTable: Update while a Search is in flight ----
+   A dictionary version is what IPTable.ipItems points to: (single addresses, pair array after Sort).
+   IPTable.Update swaps the pointer atomically (under the lock).  IPTable.Search reads the pointer ONCE (under
+   the lock) and then performs two steps on that snapshot: the single-address lookup and the range lookup.
+   [cell t] is the value of the pointer at time t; t1 <= t2 <= t3 are the times of the three steps. *)
+Definition version := (list Z * list rng)%type.
+Definition vsearch (v : version) (ip : Z) : bool := table_search (fst v) (snd v) ip.
+Definition search_during (cell : nat -> version) (t1 t2 t3 : nat) (ip : Z) : bool :=
+  let snapshot := cell t1 in
+  existsb (Z.eqb ip) (fst snapshot) || search (snd snapshot) ip.
+(* what a lookup that re-reads the live pointer for the range half would compute (NOT what the code does; kept
+   as the contrast that the harness must be able to tell apart) *)
+Definition search_during_live (cell : nat -> version) (t1 t2 t3 : nat) (ip : Z) : bool :=
+  existsb (Z.eqb ip) (fst (cell t1)) || search (snd (cell t3)) ip.
